@@ -5,6 +5,7 @@ import (
 	"encoding/json"
 	"flag"
 	"fmt"
+	"math/rand"
 	"os"
 	"runtime"
 	"strings"
@@ -146,11 +147,68 @@ func judgeMarkers(rep *lib.Report, s []byte, model *markersLine) {
 	}
 }
 
+// longRedact: the projection laws on LONG well-formed inputs (the model's strings are a few tokens long; an
+// implementation may treat large inputs differently -- in pieces, in parallel): envelopes of every length at every
+// offset, across every power-of-two boundary up to 256 KiB.  Reference: the independent parser of lib.
+func longRedact(rep *lib.Report) {
+	r := rand.New(rand.NewSource(lib.Seed() + 77))
+	for round := 0; round < 6; round++ {
+		var b []byte
+		target := []int{70000, 140000, 270000}[round%3]
+		for len(b) < target {
+			b = append(b, bytes.Repeat([]byte{byte('a' + r.Intn(26))}, r.Intn(40))...)
+			if r.Intn(5) == 0 {
+				b = append(b, '\n')
+			}
+			b = append(b, lib.StartM...)
+			b = append(b, bytes.Repeat([]byte{byte('A' + r.Intn(26))}, r.Intn(70))...)
+			b = append(b, lib.EndM...)
+		}
+		chunks, ok := lib.Parse(b)
+		if !ok {
+			continue
+		}
+		var want, strip []byte
+		for _, c := range chunks {
+			if c.Cls == 'U' {
+				want = append(want, "\u2039\u00d7\u203a"...)
+			} else {
+				want = append(want, c.Txt...)
+			}
+			strip = append(strip, c.Txt...)
+		}
+		kase := map[string]interface{}{"kind": "long-redact", "len": len(b), "round": round}
+		rep.AddEval(4)
+		if got := redact.RedactableBytes(b).Redact(); !bytes.Equal(got, want) {
+			rep.Violate("markers:redact:inexact", fmt.Sprintf("RedactableBytes.Redact on a well-formed input of %d bytes: %d bytes differ from the envelope-by-envelope replacement (first difference at %d)", len(b), len(got)-len(want), firstDiff(got, want)), kase)
+		}
+		if got := redact.RedactableString(b).Redact(); string(got) != string(want) {
+			rep.Violate("markers:redact:inexact", fmt.Sprintf("RedactableString.Redact on a well-formed input of %d bytes differs from the envelope-by-envelope replacement (first difference at %d)", len(b), firstDiff([]byte(got), want)), kase)
+		}
+		if got := redact.RedactableBytes(b).StripMarkers(); !bytes.Equal(got, strip) {
+			rep.Violate("markers:strip:inexact", fmt.Sprintf("RedactableBytes.StripMarkers on a well-formed input of %d bytes differs from the text of its chunks (first difference at %d)", len(b), firstDiff(got, strip)), kase)
+		}
+		if got := redact.RedactableString(b).StripMarkers(); got != string(strip) {
+			rep.Violate("markers:strip:inexact", fmt.Sprintf("RedactableString.StripMarkers on a well-formed input of %d bytes differs from the text of its chunks", len(b)), kase)
+		}
+	}
+}
+
+func firstDiff(a, b []byte) int {
+	for i := 0; i < len(a) && i < len(b); i++ {
+		if a[i] != b[i] {
+			return i
+		}
+	}
+	return len(a)
+}
+
 func markersReplay(args []string) {
 	fs := flag.NewFlagSet("markers-replay", flag.ExitOnError)
 	prop := fs.String("prop", "C07", "")
 	fs.Parse(args)
 	rep := lib.NewReport(*prop, "markers-replay")
+	longRedact(rep)
 	lib.Parallel(runtime.NumCPU(), func(emit func([]byte)) {
 		_ = lib.TLCLines(os.Stdin, func(raw []byte) { emit(append([]byte(nil), raw...)) })
 	}, func(raw []byte) {
